@@ -19,6 +19,8 @@ type walkCase struct {
 	Limit  int           `json:"limit"`
 	Bp     string        `json:"bp,omitempty"`
 	Splits []int         `json:"splits,omitempty"` // batch sizes for the differential
+	// CtxEnded (C06): the walk is called with a context that has already ended
+	CtxEnded bool `json:"ctx_ended,omitempty"`
 }
 
 var walkNodes = []string{"n0", "n1", "n2"}
@@ -37,6 +39,9 @@ func walkTemplates(name string, full bool) []*rstep.ANode {
 	add(&rstep.ANode{Type: "message", Branches: []rstep.ABranch{}})                                                                              // eats every message, never moves
 	add(&rstep.ANode{Type: "message", Branches: []rstep.ABranch{{Target: next}}})                                                                // a gate: any message opens it, nothing else does
 	add(&rstep.ANode{Action: prog(true, Op{K: actlang.Set, A: "s", V: name}), Branches: []rstep.ABranch{{Pattern: M{"zz": 1.0}, Target: next}}}) // action node that follows no branch
+	// a node with an action *and* message branching: not a node the engine steps through (it refuses it) - wherever the
+	// batches of a delivery end, the machine does the same
+	add(&rstep.ANode{Action: prog(true, Op{K: actlang.Emit, V: M{"hello": name}}), Type: "message", Branches: []rstep.ABranch{{Pattern: M{"a": "?x"}, Target: next}}})
 	for _, x := range walkNodes {
 		for _, y := range ys {
 			add(&rstep.ANode{Type: "message", Branches: []rstep.ABranch{{Pattern: M{"a": 1.0}, Target: x}, {Pattern: M{"a": "?x"}, Target: y}}})
@@ -84,7 +89,7 @@ func canFail(n *rstep.ANode) bool {
 		}
 		return false
 	}
-	if has(n.Action) {
+	if has(n.Action) || (n.Action != nil && n.Type == "message") {
 		return true
 	}
 	for _, b := range n.Branches {
